@@ -316,7 +316,7 @@ def hookPrim (h : Nat) (v : Val) : Bool :=
   | _ => false
 
 mutual
-/-- **InGrammar** on values, with hooks (`primOkH henv`): no OrderedDict, dict keys are leaves
+/-- **InGrammar** on values, with hooks (`primOkH henv`): dicts of any Mapping type (an OrderedDict too), dict keys are leaves
     (str/int/float/bool/None/Path/Enum); a WRITTEN field that carries an `encoding_fn` is accepted when the hook
     answers primitives on the value it is given (`hookPrim`); a field marked `to_dict=False` is accepted whatever it
     holds and whatever hook it carries (it is never looked at) -/
@@ -324,7 +324,7 @@ def primOkH : Val → Bool
   | .list xs => primOkHL xs
   | .tuple xs => primOkHL xs
   | .set xs => primOkHL xs
-  | .dict ordered ps => !ordered && primOkHP ps
+  | .dict _ ps => primOkHP ps
   | .inst _ _ fs => primOkHF fs
   | _ => true
 def primOkHL : List Val → Bool
@@ -345,7 +345,7 @@ def primOk : Val → Bool
   | .list xs => primOkL xs
   | .tuple xs => primOkL xs
   | .set xs => primOkL xs
-  | .dict ordered ps => !ordered && primOkP ps
+  | .dict _ ps => primOkP ps
   | .inst _ _ fs => primOkF fs
   | _ => true
 def primOkL : List Val → Bool
@@ -366,8 +366,8 @@ theorem primOkH_of_primOk (v : Val) (h : primOk v = true) : primOkH henv v = tru
   | .tuple xs, h => simp only [primOk] at h; simp only [primOkH]; exact primOkHL_of xs h
   | .set xs, h => simp only [primOk] at h; simp only [primOkH]; exact primOkHL_of xs h
   | .dict o ps, h =>
-    simp only [primOk, Bool.and_eq_true] at h
-    simp only [primOkH, Bool.and_eq_true]; exact ⟨h.1, primOkHP_of ps h.2⟩
+    simp only [primOk] at h
+    simp only [primOkH]; exact primOkHP_of ps h
   | .inst _ _ fs, h => simp only [primOk] at h; simp only [primOkH]; exact primOkHF_of fs h
   | .none, _ | .bool _, _ | .int _, _ | .float _, _ | .str _, _ | .path _, _ | .enum _ _, _ => simp [primOkH]
 theorem primOkHL_of (xs : List Val) (h : primOkL xs = true) : primOkHL henv xs = true := by
@@ -448,10 +448,10 @@ theorem prim_enc (v : Val) (h : primOkH henv v = true) : ∃ e, encode henv v = 
     obtain ⟨es, h1, h2⟩ := prim_encL xs h
     exact ⟨.list es, by simp [encode, h1], by simp [isPrim, h2]⟩
   | .dict ordered ps, h =>
-    simp only [primOkH, Bool.and_eq_true, Bool.not_eq_eq_eq_not, Bool.not_true] at h
-    obtain ⟨qs, h1, h2, h3⟩ := prim_encP ps h.2
+    simp only [primOkH] at h
+    obtain ⟨qs, h1, h2, h3⟩ := prim_encP ps h
     obtain ⟨acc', h4, h5⟩ := fold_prim qs [] rfl h2 h3
-    exact ⟨.dict false acc', by simp [encode, h.1, h1, h4, DAcc.toVal], by simp [isPrim, h5]⟩
+    exact ⟨.dict false acc', by simp [encode, h1, h4, DAcc.toVal], by simp [isPrim, h5]⟩
   | .inst _ reg fs, h =>
     simp only [primOkH] at h
     obtain ⟨qs, h1, h2⟩ := prim_encF fs h
@@ -599,23 +599,17 @@ theorem c13_tuple_key_witness :
     toDict h0 (.inst ['K'] true [(['d'], FMeta.plain, .dict false [(.tuple [.int 1, .int 2], .str ['a'])])]) =
       .ok (.dict false [(.str ['d'], .list [.tuple [.list [.int 1, .int 2], .str ['a']]])]) := by rfl
 
-/-- open finding: an OrderedDict held by a Dict field (or sitting inside a list) survives: `encode_dict` builds
-    `type(obj)()` — an OrderedDict node in the output, which `yaml.safe_dump` refuses -/
-theorem c13_odict_witness :
-    toDict h0 (.inst ['K'] true [(['d'], FMeta.plain, .dict true [(.str ['a'], .int 1)]),
-                                  (['l'], FMeta.plain, .list [.dict true [(.int 1, .str ['x'])]])]) =
-      .ok (.dict false [(.str ['d'], .dict true [(.str ['a'], .int 1)]),
-                        (.str ['l'], .list [.dict true [(.int 1, .str ['x'])]])]) := by rfl
-
-theorem c13_odict_not_prim :
-    isPrim (.dict false [(.str ['d'], .dict true [(.str ['a'], .int 1)])]) = false ∧
-    yamlTr (.dict false [(.str ['d'], .dict true [(.str ['a'], .int 1)])]) = .raise "ConstructorError".toList := by
-  constructor <;> rfl
-
-theorem c13_prim_full_witness_odict : ¬ PrimFullStatement := by
-  intro h
-  have := h h0 _ _ c13_odict_witness
-  simp [isPrim, isPrimP, isPrimL, isPrimLeaf] at this
+/-- repaired by 36b622d (was the open finding C13-ordereddict-survives): an OrderedDict held by a Dict field, or sitting
+    inside a list, is written as a plain dict — the output is made of exact primitives -/
+def exOdict : Val :=
+  .inst ['K'] true [(['d'], FMeta.plain, .dict true [(.str ['a'], .int 1)]),
+                    (['l'], FMeta.plain, .list [.dict true [(.int 1, .str ['x'])]])]
+example : toDict h0 exOdict =
+    .ok (.dict false [(.str ['d'], .dict false [(.str ['a'], .int 1)]),
+                      (.str ['l'], .list [.dict false [(.int 1, .str ['x'])]])]) := by rfl
+example : primOk exOdict = true := by rfl
+example : ∃ d, toDict h0 exOdict = .ok d ∧ yamlTr d = .ok d ∧ ∃ j, jsonTr d = .ok j :=
+  c13_writers_accept h0 exOdict _ _ _ rfl (by rfl)
 
 theorem c13_prim_full_witness : ¬ PrimFullStatement := by
   intro h
